@@ -31,6 +31,23 @@ def dense(T):
     return project.dense(T.cores)
 
 
+def tangent_projector(x):
+    """dense orthogonal projector onto the tangent space at x: Q Q^T for an orthonormal basis Q of the range of the
+    Jacobian d full(x) / d cores (own contraction; independent of torchtt.manifold)"""
+    cores = [c.detach() for c in x.cores]
+    cols = []
+    for k, c in enumerate(cores):
+        flat = torch.zeros(c.numel(), dtype=c.dtype)
+        for e in range(c.numel()):
+            flat.zero_(); flat[e] = 1.0
+            cs = list(cores); cs[k] = flat.reshape(c.shape).clone()
+            cols.append(project.dense(cs).reshape(-1))
+    J = torch.stack(cols, dim=1)
+    U, S, _ = torch.linalg.svd(J, full_matrices=False)
+    r = int((S > 1e-10 * S[0]).sum())
+    return U[:, :r]
+
+
 def handler(st, opts):
     import torchtt as tt
     S, term = st["s"], st["term"]
@@ -80,6 +97,42 @@ def handler(st, opts):
             if err > TOL * scale * csum:
                 problems.append(P("law", "term differs from its normal form %s by %.3g (scale %.3g): the projector is not linear / idempotent / does not fix x" % (nf, err, scale)))
             stats["nontrivial"] = 1 if op in ("P", "lin") else 0
+        elif op in ("oracle", "oracle_upd"):
+            if op == "oracle_upd":
+                # a history on the same base-point object: project, replace the first core, project, replace the last core
+                proj(x, z)
+                c0 = x.cores[0]
+                x.set_core(0, torch.randn(c0.shape, generator=gen, dtype=c0.dtype))
+                proj(x, w)
+                cl = x.cores[-1]
+                x.set_core(len(x.cores) - 1, torch.randn(cl.shape, generator=gen, dtype=cl.dtype))
+                stats["calls"] += 2
+                snap = algrun.snapshot(objs)
+                Rx = [int(r) for r in x.R]
+            Q = tangent_projector(x)
+            for nm, T in (("z", z), ("w", w)):
+                got = dense(proj(x, T)).reshape(-1)
+                td = dense(T).reshape(-1)
+                ref = Q @ (Q.T @ td)
+                stats["calls"] += 1
+                err = torch.linalg.norm(got - ref).item()
+                if err > 1e-8 * scale:
+                    problems.append(P("oracle", "P %s differs from the orthogonal projection onto the tangent space at the current x by %.3g (scale %.3g)" % (nm, err, scale)))
+            # tangent vectors are fixed: x with one core replaced
+            for k in (0, len(x.cores) - 1):
+                cs = [c.clone() for c in x.cores]
+                cs[k] = torch.randn(cs[k].shape, generator=gen, dtype=cs[k].dtype)
+                t = tt.TT(cs)
+                stats["calls"] += 1
+                err = torch.linalg.norm(dense(proj(x, t)) - dense(t)).item()
+                if err > 1e-8 * max(1.0, torch.linalg.norm(dense(t)).item()):
+                    problems.append(P("oracle", "a tangent vector (x with core %d replaced) is not fixed by P: differs by %.3g" % (k, err)))
+            # the gradient routine agrees with the oracle as well
+            G = tt.manifold.riemannian_gradient(x, lambda X: (X * w).sum())
+            ref = Q @ (Q.T @ dense(w).reshape(-1))
+            if torch.linalg.norm(dense(G).reshape(-1) - ref).item() > 1e-8 * scale:
+                problems.append(P("oracle", "riemannian_gradient of <X, w> differs from the projection of w onto the tangent space at the current x"))
+            stats["nontrivial"] = 1
         elif op == "scalar_laws":
             Pz, Pw = proj(x, z), proj(x, w)
             stats["calls"] += 2
